@@ -296,12 +296,15 @@ def main(prop, modname, tier, nproc=None):
     known = load_known(prop)
     replay_dir = os.path.join(VERIF, "replays", prop)
     confirmed, known_hits, spurious = [], [], []
+    MAX_CONFIRM = int(os.environ.get("VERIF_MAX_CONFIRM", "4"))
+    not_replayed = 0
+    dirty = False
     validated = 0
     mismatches = []
     try:
         for r in results:
             for w in r["witnesses"]:
-                if w.get("kind") is None:
+                if w.get("kind") is None or len(confirmed) >= MAX_CONFIRM:
                     continue
                 out = srv.call(modname, w["kind"], w["case"], "witness", w.get("expect"))
                 if out.get("violates") or out.get("error"):
@@ -328,9 +331,15 @@ def main(prop, modname, tier, nproc=None):
                 if v.get("kind") is None:
                     spurious.append({"violation": v, "why": "no replay kind"})
                     continue
-                srv.close()
-                srv = ReplayServer()      # every counterexample is confirmed in a fresh interpreter
+                if len(confirmed) >= MAX_CONFIRM:
+                    not_replayed += 1     # enough confirmed violations for the verdict; the rest is not replayed
+                    continue
+                if dirty or getattr(mod, "FRESH_REPLAY", False):
+                    srv.close()
+                    srv = ReplayServer()      # confirm in a pristine interpreter
+                    dirty = False
                 out = srv.call(modname, v["kind"], v["case"], "violation", {"obligation": v["obligation"], "detail": v.get("detail"), "extra": v.get("extra")})
+                dirty = True
                 if out.get("error"):
                     spurious.append({"violation": v, "why": "replay error: " + out["error"]})
                     continue
@@ -423,7 +432,7 @@ def main(prop, modname, tier, nproc=None):
             "functions_encoded": functions,
             "stubs": meta.get("stubs", []),
             "solvers": "z3 %s (python API, incremental per path); numpy model for NumPy %s" % (z3.get_version_string(), _np_version()),
-            "witness_mismatches": len(mismatches), "non_reproducing_counterexamples": len(spurious),
+            "witness_mismatches": len(mismatches), "non_reproducing_counterexamples": len(spurious), "counterexamples_not_replayed": not_replayed,
             "inconclusive_cases": len(errors),
             "known_findings_hit": sorted(seen_known.keys()),
             "per_case": [{"case": r["case"], "paths": r["stats"].get("paths"), "decisions": r["stats"].get("decisions"),
